@@ -978,3 +978,73 @@ theorem history_preserves (ks : List Schema) : ∀ (ops : List Op) (body : List 
       (step_preserves ks body op (hops op (List.mem_cons_self ..)) h)
 
 end YangVerif.Data
+
+namespace YangVerif.Data
+
+/-! ### export: a read into a fresh target reports exactly the data (plus defaults of created nodes) -/
+
+/-- rows with pairwise different keys merged into rows they are disjoint from are appended in order -/
+theorem mergeRows_append_fresh (ks : List Schema)
+    (hb : ∀ b, conformsBody ks b = true → uniqueKeysBody b = true →
+      mergeKids ks b (freshBody ks) = withDefaultsBody true ks b) :
+    ∀ (rows t : List (Key × List Data)), conformsRows ks rows = true → uniqueKeysRows rows = true →
+      (∀ k ∈ keysOf rows, k ∉ keysOf t) → (keysOf rows).Nodup →
+      mergeRows ks rows t = t ++ withDefaultsRows ks rows
+  | [], t, _, _, _, _ => by simp [mergeRows, withDefaultsRows]
+  | (k, b) :: rest, t, hc, hu, hdis, hnd => by
+    simp only [conformsRows, Bool.and_eq_true] at hc
+    simp only [uniqueKeysRows, Bool.and_eq_true] at hu
+    simp only [keysOf, List.map_cons, List.nodup_cons] at hnd
+    have hk : k ∉ keysOf t := hdis k (by simp [keysOf])
+    simp only [mergeRows, findRow_none_of_not_mem k t hk, withDefaultsRows]
+    rw [mergeRows_append_fresh ks hb rest _ hc.2 hu.2 _ hnd.2, hb b hc.1 hu.1]
+    · simp [List.append_assoc]
+    · intro k' hk'
+      simp only [keysOf, List.map_append, List.map_cons, List.map_nil, List.mem_append, List.mem_singleton, not_or]
+      refine ⟨by simpa [keysOf] using hdis k' (by simp [keysOf]; right; simpa [keysOf] using hk'), ?_⟩
+      intro e; subst e; exact hnd.1 (by simpa [keysOf] using hk')
+
+mutual
+  theorem merge_into_empty : ∀ (s : Schema) (d : Data), conforms s d = true → uniqueKeys d = true →
+      merge s d (emptyOf s) = withDefaults false s d ∧ merge s d (freshOf s) = withDefaults true s d
+    | .leaf dflt, .leaf (some v), _, _ => by simp [merge, withDefaults, emptyOf, freshOf]
+    | .leaf dflt, .leaf none, _, _ => by simp [merge, withDefaults, emptyOf, freshOf]
+    | .leaf _, .cont _, hd, _ => by simp [conforms] at hd
+    | .leaf _, .list _, hd, _ => by simp [conforms] at hd
+    | .cont _, .leaf _, hd, _ => by simp [conforms] at hd
+    | .cont _, .list _, hd, _ => by simp [conforms] at hd
+    | .cont _, .cont none, _, _ => by simp [merge, withDefaults, emptyOf, freshOf]
+    | .cont ks, .cont (some b), hd, hu => by
+      simp only [conforms] at hd
+      simp only [uniqueKeys] at hu
+      simp [merge, withDefaults, emptyOf, freshOf, mergeKids_into_fresh ks b hd hu]
+    | .list _ _, .leaf _, hd, _ => by simp [conforms] at hd
+    | .list _ _, .cont _, hd, _ => by simp [conforms] at hd
+    | .list _ ks, .list rows, hd, hu => by
+      simp only [conforms] at hd
+      simp only [uniqueKeys, Bool.and_eq_true, decide_eq_true_eq] at hu
+      have h := mergeRows_append_fresh ks (fun b h1 h2 => mergeKids_into_fresh ks b h1 h2) rows [] hd hu.2
+        (by intro k _; simp [keysOf]) hu.1
+      simp [merge, withDefaults, emptyOf, freshOf, h]
+  theorem mergeKids_into_fresh : ∀ (ks : List Schema) (b : List Data), conformsBody ks b = true → uniqueKeysBody b = true →
+      mergeKids ks b (freshBody ks) = withDefaultsBody true ks b
+    | [], [], _, _ => by simp [mergeKids, withDefaultsBody, freshBody]
+    | [], _ :: _, hd, _ => by simp [conformsBody] at hd
+    | _ :: _, [], hd, _ => by simp [conformsBody] at hd
+    | s :: ss, d :: ds, hd, hu => by
+      simp only [conformsBody, Bool.and_eq_true] at hd
+      simp only [uniqueKeysBody, Bool.and_eq_true] at hu
+      simp [mergeKids, withDefaultsBody, freshBody, (merge_into_empty s d hd.1 hu.1).2, mergeKids_into_fresh ss ds hd.2 hu.2]
+end
+
+theorem mergeKids_into_empty : ∀ (ks : List Schema) (b : List Data), conformsBody ks b = true → uniqueKeysBody b = true →
+    mergeKids ks b (emptyBody ks) = withDefaultsBody false ks b
+  | [], [], _, _ => by simp [mergeKids, withDefaultsBody, emptyBody]
+  | [], _ :: _, hd, _ => by simp [conformsBody] at hd
+  | _ :: _, [], hd, _ => by simp [conformsBody] at hd
+  | s :: ss, d :: ds, hd, hu => by
+    simp only [conformsBody, Bool.and_eq_true] at hd
+    simp only [uniqueKeysBody, Bool.and_eq_true] at hu
+    simp [mergeKids, withDefaultsBody, emptyBody, (merge_into_empty s d hd.1 hu.1).1, mergeKids_into_empty ss ds hd.2 hu.2]
+
+end YangVerif.Data
